@@ -1,10 +1,14 @@
 import QipVerif.Util.GateIO
 import QipVerif.Gen.DeviceTables
+import QipVerif.Gen.DecompAlias
 /-! Driver for the model of `ModelProcessor.transpile` (C13).
 
 * `transpile dev=<device> n=N [m=M] [pre=0|1] gates=<list>` → `ok <list>` | `err route:<kind>` | `err decomp:<kind>`
   | `err size`  (`n` = `qc.N`, `m` = `processor.num_qubits`, default `n`; `pre` overrides the regenerated
   `Gen.preDecompose`; gate syntax of `Util/GateIO.lean`)
+  Alias names with a rule (`Gen.ruleAlias`: `H`, C03's regenerated table) are read as their canonical name when the
+  device has native gates: such a gate has one qubit (the router leaves it alone, pre-decomposition looks at gates on more
+  than two qubits) and is always rewritten by the native stage, so its own name occurs nowhere in the result.
 * `route setup=linear|circular n=N gates=<list>` → the routing stage alone
 * `tables` → the regenerated device tables:
   `pre=<0|1> guard=<0|1> <device>=<native names,…|None>:<setup>:<setup when qc.N < num_qubits> …`
@@ -45,6 +49,10 @@ def step (line : String) : String :=
     | some d, some n, some gs =>
       let pre := match fNat? fs "pre" with | some k => k != 0 | none => Gen.preDecompose
       let m := (fNat? fs "m").getD n
+      let gs := if (Gen.deviceSpec d).native.isSome then
+          gs.map fun g => if g.qubits.length = 1 then
+            ⟨Decomp.canonName Gen.ruleAlias g.name, g.targets, g.controls, g.arg⟩ else g
+        else gs
       match transpileD Gen.tables pre Gen.sizeGuard (Gen.deviceSpec d) (Gen.deviceSpecSmall d) m n gs with
       | .ok out => "ok " ++ showGates out
       | .error .size => "err size"
